@@ -2418,8 +2418,18 @@ func normalise(repo string, vocab map[string]bool, decls *refDecls) (*normInfo, 
 				})
 			}
 		}
-		N.funcGlobalsToFuncs(pkgs)
-		N.substituteFuncGlobals(pkgs)
+		refolded := false
+		if round == 1 {
+			N.refoldWrappers(pkgs)
+			// (a round of its own: the calls it spells differently must not be expanded in the same pass)
+			refolded = len(N.edits) > 0
+		}
+		if !refolded {
+			N.funcGlobalsToFuncs(pkgs)
+		}
+		if !refolded {
+			N.substituteFuncGlobals(pkgs)
+		}
 		N.local = localClosures(pkgs)
 		N.resultLit = resultClosures(pkgs)
 		// a function literal bound to a parameter of an expanded helper that calls it more than once: every call is
@@ -2479,7 +2489,7 @@ func normalise(repo string, vocab map[string]bool, decls *refDecls) (*normInfo, 
 		}
 		left := map[string]bool{}
 		for _, p := range pkgs {
-			if !strings.HasPrefix(p.PkgPath, "github.com/jhalter/mobius") {
+			if !strings.HasPrefix(p.PkgPath, "github.com/jhalter/mobius") || refolded {
 				continue
 			}
 			for _, f := range p.Syntax {
@@ -3934,6 +3944,228 @@ func (N *normaliser) funcGlobalsToFuncs(pkgs []*packages.Package) {
 			text := "\nfunc " + v.Name() + "(" + strings.Join(params, ", ") + ")" + res + " { " + ret + N.text(ast.Unparen(g.vs.Values[0])) + "(" + strings.Join(names, ", ") + ") }\n"
 			N.edits[fn] = append(N.edits[fn], textEdit{N.fset.Position(g.file.End()).Offset, 0, text})
 			N.info.Inlined = append(N.info.Inlined, "function-valued variable "+v.Name()+" written as a function")
+		}
+	}
+}
+
+// refoldWrappers: a function of the vocabulary that has become a thin wrapper — `func W(p…) R { return T{f1: p1, …}.m(q…) }`
+// with m a method outside the vocabulary and every parameter of W used exactly once — while its callers now build the
+// T and call m themselves (`s := T{f1: e1, …}; … s.m(a…)`): such a call is spelled W(…) again, with the field
+// values and arguments in the places of W's parameters, so that the rules find W's call sites where they were. The
+// field values must be simple operands (they are evaluated at the call instead of where s was built) and s must
+// have no other use.
+func (N *normaliser) refoldWrappers(pkgs []*packages.Package) {
+	type wrapper struct {
+		w        *types.Func
+		fieldIdx map[string]int // field of T → parameter index of W
+		argIdx   []int          // argument position of m → parameter index of W
+		nParams  int
+	}
+	for _, p := range pkgs {
+		if !strings.HasPrefix(p.PkgPath, "github.com/jhalter/mobius") {
+			continue
+		}
+		wraps := map[*types.Func]wrapper{}
+		for _, f := range p.Syntax {
+			for _, dcl := range f.Decls {
+				fd, ok := dcl.(*ast.FuncDecl)
+				if !ok || fd.Recv != nil || fd.Body == nil || len(fd.Body.List) != 1 {
+					continue
+				}
+				wobj, _ := p.TypesInfo.Defs[fd.Name].(*types.Func)
+				if wobj == nil {
+					continue
+				}
+				if _, isCand := N.cands[wobj]; isCand {
+					continue
+				}
+				ret, ok := fd.Body.List[0].(*ast.ReturnStmt)
+				if !ok || len(ret.Results) != 1 {
+					continue
+				}
+				call, ok := ast.Unparen(ret.Results[0]).(*ast.CallExpr)
+				if !ok {
+					continue
+				}
+				sel, ok := ast.Unparen(call.Fun).(*ast.SelectorExpr)
+				if !ok {
+					continue
+				}
+				cl, ok := ast.Unparen(sel.X).(*ast.CompositeLit)
+				if !ok {
+					continue
+				}
+				m, _ := p.TypesInfo.Uses[sel.Sel].(*types.Func)
+				if m == nil {
+					continue
+				}
+				if _, isCand := N.cands[m]; !isCand {
+					continue
+				}
+				// parameters of W by object
+				pidx := map[types.Object]int{}
+				k := 0
+				for _, fl := range fd.Type.Params.List {
+					for _, nm := range fl.Names {
+						pidx[p.TypesInfo.Defs[nm]] = k
+						k++
+					}
+					if len(fl.Names) == 0 {
+						k = -1000
+					}
+				}
+				if k <= 0 {
+					continue
+				}
+				used := map[int]bool{}
+				wr := wrapper{w: wobj, fieldIdx: map[string]int{}, nParams: k}
+				okW := true
+				for _, e := range cl.Elts {
+					kv, isKV := e.(*ast.KeyValueExpr)
+					if !isKV {
+						okW = false
+						break
+					}
+					fid, vid := identOf(kv.Key), identOf(ast.Unparen(kv.Value))
+					if fid == nil || vid == nil {
+						okW = false
+						break
+					}
+					ix, isP := pidx[p.TypesInfo.Uses[vid]]
+					if !isP || used[ix] {
+						okW = false
+						break
+					}
+					used[ix] = true
+					wr.fieldIdx[fid.Name] = ix
+				}
+				for _, a := range call.Args {
+					vid := identOf(ast.Unparen(a))
+					if vid == nil {
+						okW = false
+						break
+					}
+					ix, isP := pidx[p.TypesInfo.Uses[vid]]
+					if !isP || used[ix] {
+						okW = false
+						break
+					}
+					used[ix] = true
+					wr.argIdx = append(wr.argIdx, ix)
+				}
+				if !okW || len(used) != k || call.Ellipsis.IsValid() {
+					continue
+				}
+				wraps[m] = wr
+			}
+		}
+		if len(wraps) == 0 {
+			continue
+		}
+		for _, f := range p.Syntax {
+			for _, dcl := range f.Decls {
+				fd, ok := dcl.(*ast.FuncDecl)
+				if !ok || fd.Body == nil {
+					continue
+				}
+				if o, _ := p.TypesInfo.Defs[fd.Name].(*types.Func); o != nil {
+					skip := false
+					for _, wr := range wraps {
+						if wr.w == o {
+							skip = true
+						}
+					}
+					if skip {
+						continue
+					}
+				}
+				ast.Inspect(fd.Body, func(n ast.Node) bool {
+					call, ok := n.(*ast.CallExpr)
+					if !ok || call.Ellipsis.IsValid() {
+						return true
+					}
+					sel, ok := ast.Unparen(call.Fun).(*ast.SelectorExpr)
+					if !ok {
+						return true
+					}
+					m, _ := p.TypesInfo.Uses[sel.Sel].(*types.Func)
+					wr, isW := wraps[m]
+					xid := identOf(ast.Unparen(sel.X))
+					if !isW || xid == nil || len(call.Args) != len(wr.argIdx) {
+						return true
+					}
+					xv, _ := p.TypesInfo.Uses[xid].(*types.Var)
+					if xv == nil || xv.IsField() || xv.Parent() == p.Types.Scope() {
+						return true
+					}
+					// x := T{…}, defined once, used only here
+					var def *ast.AssignStmt
+					var lit *ast.CompositeLit
+					nAssign := 0
+					ast.Inspect(fd.Body, func(q ast.Node) bool {
+						as, isAs := q.(*ast.AssignStmt)
+						if !isAs {
+							return true
+						}
+						for i, l := range as.Lhs {
+							if id := identOf(l); id != nil && p.TypesInfo.ObjectOf(id) == types.Object(xv) {
+								nAssign++
+								if as.Tok == token.DEFINE && len(as.Lhs) == 1 && len(as.Rhs) == 1 && i == 0 {
+									if cl, isCL := ast.Unparen(as.Rhs[0]).(*ast.CompositeLit); isCL {
+										def, lit = as, cl
+									}
+								}
+							}
+						}
+						return true
+					})
+					uses := 0
+					for _, o := range p.TypesInfo.Uses {
+						if o == types.Object(xv) {
+							uses++
+						}
+					}
+					if def == nil || nAssign != 1 || uses != 1 {
+						return true
+					}
+					args := make([]string, wr.nParams)
+					seen := 0
+					for _, e := range lit.Elts {
+						kv, isKV := e.(*ast.KeyValueExpr)
+						if !isKV {
+							return true
+						}
+						fid := identOf(kv.Key)
+						if fid == nil {
+							return true
+						}
+						ix, has := wr.fieldIdx[fid.Name]
+						if !has || !simpleOperand(p, kv.Value) || args[ix] != "" {
+							return true
+						}
+						args[ix] = N.text(kv.Value)
+						seen++
+					}
+					if seen != len(wr.fieldIdx) {
+						return true
+					}
+					for i, a := range call.Args {
+						args[wr.argIdx[i]] = N.text(a)
+					}
+					for _, a := range args {
+						if a == "" {
+							return true
+						}
+					}
+					fn := N.fset.Position(call.Pos()).Filename
+					so, eo := N.fset.Position(call.Pos()).Offset, N.fset.Position(call.End()).Offset
+					N.edits[fn] = append(N.edits[fn], textEdit{so, eo - so, wr.w.Name() + "(" + strings.Join(args, ", ") + ")"})
+					ds, de := N.fset.Position(def.Pos()).Offset, N.fset.Position(def.End()).Offset
+					N.edits[fn] = append(N.edits[fn], textEdit{ds, de - ds, "{}"})
+					N.info.Inlined = append(N.info.Inlined, "call of "+m.Name()+" spelled as the wrapper "+wr.w.Name()+" again at "+N.fset.Position(call.Pos()).String())
+					return true
+				})
+			}
 		}
 	}
 }
